@@ -1,4 +1,7 @@
 import KG.Driver.Loop
 import KG.Driver.C07
-/-! Model driver for property C07 (one executable per property, so that properties stay independent). -/
-def main : IO Unit := KG.Driver.runLoop [("C07", KG.Driver.C07.handle)]
+import KG.Driver.C07Loop
+/-! Model driver for property C07 (one executable per property, so that properties stay independent).
+    `C07.loop…` methods are served by the closed-loop driver (`KG.Driver.C07Loop`). -/
+def main : IO Unit :=
+  KG.Driver.runLoop [("C07", fun m a => (KG.Driver.C07.handle m a).orElse fun _ => KG.Driver.C07Loop.handle m a)]
